@@ -7,14 +7,14 @@ from pi2v import tkey, py_run
 def run(v, tier):
     quick = tier == 'quick'
     rng = random.Random(pi2v.SEED)
-    v.assumptions += ['interpreter stacks: basic, stateful, counting, serializing, pretty, memo(serializing), instopt(stateful), instopt(basic), memo(instopt(serializing))']
+    v.assumptions += ['interpreter stacks: basic, stateful, counting, serializing, pretty, memo(serializing), instopt(stateful), instopt(basic), memo(instopt(serializing)), optimize(serializing) = counting pre-pass + memo']
     cases = []
     # library lemmas under every stack (cheap entries; the pretty printer is quadratic)
     reqs, _ = lem.applications(rng, 2 if quick else 10, max_events=1000 if quick else 4000, interps=True, traces=())
     res = lem.run_applications(reqs)
     cases += lem.interp_cases(reqs, res)
     # DSL edge cases named by the property
-    mods = exprs.edge_modules(rng, 12 if quick else 500) + exprs.graph_modules(rng)
+    mods = exprs.edge_modules(rng, 12 if quick else 500) + exprs.graph_modules(rng) + exprs.big_modules([40])[1:]     # + the memory-saturating chain
     ereqs = [{'cmd': 'expr', 'module': m, 'interps': True, 'traces': []} for m in mods]
     eres = lem.run_applications(ereqs)
     nb = 0
